@@ -295,7 +295,13 @@ impl Chk {
     }
     /// an obligation discharged without the solver because both sides are the same hash-consed node
     pub fn trivially_holds(&mut self, kind: &str) {
-        self.rep.syntactic_keys.insert(format!("{}|{kind}", self.cfg_name));
+        if self.rep.syntactic_keys.insert(format!("{}|{kind}", self.cfg_name)) {
+            let n = self.sampled.entry(format!("{kind} (term identity)")).or_default();
+            if *n < 1 && self.rep.samples.len() < 12 {
+                *n += 1;
+                self.rep.samples.push(Json::obj().with("config", &self.cfg_name).with("obligation", kind).with("kind", kind).with("decided_by", "term identity: both sides are the same hash-consed term (the same operations on the same symbolic operands), no solver query needed"));
+            }
+        }
         self.rep.obligations += 1;
         self.rep.discharged += 1;
         self.rep.trivial += 1;
